@@ -226,22 +226,14 @@ class NoOp(Opcode):
         pass
 
 
-def raw_unicode_escape(byte_string: bytes) -> str:
-    s = []
-    for b in byte_string:
-        if 32 <= b <= 128:
-            # this is printable ASCII
-            s.append(chr(b))
-        elif b == ord("\n"):
-            s.append("\\n")
-        elif b == ord("\r"):
-            s.append("\\r")
-        elif b == ord("\\"):
-            s.append("\\\\")
-        else:
-            s.append(f"\\u{b:04x}")
-    s.append("\n")
-    return "".join(s)
+def raw_unicode_escape(text: str) -> bytes:
+    """The argument of a UNICODE opcode: the raw-unicode-escape encoding of the text, with backslash,
+    NUL, newline, carriage return and ctrl-Z written as \\uXXXX escapes the way pickle.py's save_str
+    does for protocol 0 (the reader takes a line and undoes nothing but \\u and \\U escapes),
+    terminated by a newline"""
+    for ch in "\\\0\n\r\x1a":
+        text = text.replace(ch, f"\\u{ord(ch):04x}")
+    return text.encode("raw-unicode-escape") + b"\n"
 
 
 class ConstantOpcode(Opcode):
@@ -1327,7 +1319,11 @@ class Unicode(ConstantOpcode):
         return obj.encode("utf-8")
 
     def encode_body(self) -> bytes:
-        return raw_unicode_escape(self.arg).encode("utf-8")
+        text = self.arg
+        if isinstance(text, bytes):
+            # validate() and the command line interface hand over the UTF-8 encoding of the text
+            text = text.decode("utf-8")
+        return raw_unicode_escape(text)
 
 
 class String(ConstantOpcode):
